@@ -204,7 +204,7 @@ def ahb_tree(parts: List[Tuple[str, str, Optional[Any]]], resolved: bool = True)
 def tree_to_ast(t: Any):
     """Inverse of cond_tree for abstract trees (used to compare resolver output with the reference)."""
     if not (isinstance(t, Obj) and t.cls == "lark.Tree"):
-        raise Unsupported(f"not a tree: {t!r}")
+        return ("not-a-tree", repr(t)[:80])
     data = t.fields["data"]
     ch = t.fields["children"]
     if data == "condition":
@@ -348,6 +348,8 @@ def run_is_valid(model: SrcModel, t_or_str, chooser=None):
         counter["n"] += 1
         rcs = cer.fields.get("requirement_constraints") or {}
         fcs = cer.fields.get("format_constraints") or {}
+        counter.setdefault("distinct", set()).add((tuple(sorted((k, repr(v)) for k, v in rcs.items())),
+                                                   tuple(sorted((k, repr(v.fields.get("format_constraint_fulfilled"))) for k, v in fcs.items()))))
         h.rc_eval.fields["_evaluation_methods"] = {k: it.call(make_rc, [v, False], {}, None, None) for k, v in rcs.items()}
         fm = {}
         for k, v in fcs.items():
@@ -363,4 +365,4 @@ def run_is_valid(model: SrcModel, t_or_str, chooser=None):
         res = h.call(IS_VALID, t_or_str, ExtVal("vstat.setter"))
     except PyRaise as err:
         return ("raise", err.exc.cls), counter["n"]
-    return res, counter["n"]
+    return res, min(counter["n"], len(counter.get("distinct", ())))
